@@ -353,10 +353,101 @@ def generate(seed, i, tier="quick"):
 def plan(tier, seed):
     n = 16000 if tier == "quick" else 400000
     per = 400
-    return [{"kind": "seeded", "seed": seed, "first": i, "count": min(per, n - i), "tier": tier} for i in range(0, n, per)]
+    units = [{"kind": "seeded", "seed": seed, "first": i, "count": min(per, n - i), "tier": tier} for i in range(0, n, per)]
+    # enumeration of (old word, sub-field, new value) triples of the note words
+    if tier == "quick":
+        # every old value of the written byte x 3 sibling bytes x every new value
+        for f in range(4):
+            units.append({"kind": "triples", "field": f, "olds": "byte"})
+    else:
+        # every 16-bit old word x every new value, split into 16 slices per sub-field
+        for f in range(4):
+            for sl in range(16):
+                units.append({"kind": "triples", "field": f, "olds": "word", "slice": sl, "of": 16})
+    units.append({"kind": "small_words"})
+    return units
+
+
+def run_triples(unit):
+    """Complete enumeration for one note sub-field: the setter must replace exactly its
+    byte.  One Acc evaluation per old word (256 writes each)."""
+    from rv.note import Note
+
+    acc = Acc()
+    f = unit["field"]
+    name = ("controller", "effect", "val_xx", "val_yy")[f]
+    word_attr = "ctl" if f < 2 else "val"
+    hi = f in (0, 2)
+    if unit["olds"] == "byte":
+        olds = [(o << 8 | sib) if hi else (sib << 8 | o) for o in range(256) for sib in (0x00, 0xFF, 0xA5)]
+    else:
+        olds = range(unit["slice"], 65536, unit["of"])
+    n = Note()
+    other_attr = "val" if word_attr == "ctl" else "ctl"
+    bad = None
+    count = 0
+    for old in olds:
+        for new in range(256):
+            setattr(n, word_attr, old)
+            setattr(n, other_attr, 0x5A3C)
+            setattr(n, name, new)
+            got = getattr(n, word_attr)
+            want = ((old & 0x00FF) | (new << 8)) if hi else ((old & 0xFF00) | new)
+            count += 1
+            if got != want or getattr(n, name) != new or getattr(n, other_attr) != 0x5A3C:
+                if bad is None:
+                    bad = (old, new, got, want)
+    case = {"property": PROPERTY, "world": "words", "ops": [{"k": "triples", "field": f, "olds": unit["olds"], "slice": unit.get("slice", 0), "of": unit.get("of", 1)}]}
+    res = {"violations": [], "fired": {}, "probes": {"note_subfield_triples_enumerated": count}, "nontrivial": [seeds.h64("triples", f, unit["olds"], unit.get("slice", 0))], "states": [], "digest": seeds.digest(f, count, bad), "outcome": [count], "steps": count}
+    if bad is not None:
+        old, new, got, want = bad
+        # re-express as an ordinary replayable history
+        ops = [{"k": "setup", "lines": 0, "tracks": 0, "nmods": 0}, {"k": "nword", "l": 0, "t": 0, "f": 0 if word_attr == "ctl" else 1, "v": old}, {"k": "nsub", "l": 0, "t": 0, "f": f, "v": new}]
+        case = {"property": PROPERTY, "world": "words", "ops": ops}
+        res2 = execute(case)
+        res["violations"] = res2["violations"] or [_v("subfield_write", word="note", field=name, what="written_field_wrong", detail={"old": old, "new": new, "got": got, "want": want})]
+    acc.add_case_result(case, res)
+    return acc.to_dict()
+
+
+def run_small_words(unit):
+    """Complete enumeration of the small packed words: visualization parts (defined members x
+    defined members / clamped ranges), MIDI-in (2 x 17), sync flags (8 x 8), across one
+    save/load each for the file-level packing."""
+    acc = Acc()
+    # visualization: every (field, old member, new member) with noise in the other fields
+    for fi, f in enumerate(VIZ_FIELDS):
+        dom = {"level_mode": 5, "orientation": 2, "oscilloscope_mode": 8, "oscilloscope_size": 256, "bg_transparency": 4, "shadow_opacity": 4}[f]
+        step = 1 if dom <= 8 else 5
+        for old in range(0, dom, step):
+            ops = [{"k": "setup", "lines": 0, "tracks": 0, "nmods": 1}]
+            base = viz_put(0xA5A5A5A5, f, old)
+            ops.append({"k": "vword", "m": 0, "v": base})
+            for new in range(0, dom, step):
+                v = (new if dom <= 8 else 4 + (new << 8)) | 64
+                if dom > 8:
+                    v = 4 | (new << 8)
+                ops.append({"k": "vsub", "m": 0, "f": fi, "v": v})
+                ops.append({"k": "vword", "m": 0, "v": base})
+            ops.append({"k": "save_load"})
+            acc.run(execute, {"property": PROPERTY, "world": "words", "ops": ops})
+    for a in range(2):
+        for ch in range(17):
+            ops = [{"k": "setup", "lines": 0, "tracks": 0, "nmods": 1}, {"k": "midi", "m": 1, "f": 0, "v": a}, {"k": "midi", "m": 1, "f": 1, "v": ch}, {"k": "save_load"}, {"k": "midi", "m": 1, "f": 0, "v": 1 - a}, {"k": "save_load"}]
+            acc.run(execute, {"property": PROPERTY, "world": "words", "ops": ops})
+    for x in range(8):
+        for y in range(8):
+            ops = [{"k": "setup", "lines": 0, "tracks": 0, "nmods": 0}, {"k": "sync", "f": 0, "v": x}, {"k": "sync", "f": 1, "v": y}, {"k": "save_load"}, {"k": "sync", "f": 0, "v": y}, {"k": "save_load"}]
+            acc.run(execute, {"property": PROPERTY, "world": "words", "ops": ops})
+    acc.probes["small_words_enumerated"] += 1
+    return acc.to_dict()
 
 
 def run_unit(unit):
+    if unit["kind"] == "triples":
+        return run_triples(unit)
+    if unit["kind"] == "small_words":
+        return run_small_words(unit)
     acc = Acc()
     for i in range(unit["first"], unit["first"] + unit["count"]):
         acc.run(execute, generate(unit["seed"], i, unit.get("tier", "quick")))
